@@ -96,4 +96,16 @@ def pipeline (whitebalancing : Bool) (wb col : Stage Î±) (img : List (List (V3 Î
   applyGrid (runCode (pipelineStages whitebalancing wb col)) img
 
 end ops
+/-! ### round 3: `clip = True` of ColorCorrection (values outside [0, 1] are clipped after balancing) -/
+
+def clip01 (x : Rat) : Rat := max 0 (min x 1)
+def clipV3 (v : V3 Rat) : V3 Rat := âŸ¨clip01 v.x, clip01 v.y, clip01 v.zâŸ©
+
+/-- `ColorCorrection.correct_array` (balancing = "darsia") including the optional clipping; the final `.astype(float32)`
+is a rounding of each value and is not modelled (the tie uses values that float32 represents exactly) -/
+def pipelineClip (whitebalancing clip : Bool) (wb col : Stage Rat) (img : List (List (V3 Rat))) : List (List (V3 Rat)) :=
+  let out := pipeline whitebalancing wb col img
+  if clip then out.map (fun row => row.map clipV3) else out
+
 end Darsia.Balance
+
